@@ -207,15 +207,16 @@ class Runner:
         if self.dead:
             return False
         ok = self.apply(op)
-        self.iso._reshuffle_extents()   # what write_fp() does first
-        d = dump(self.iso)
+        d = []
         try:
+            self.iso._reshuffle_extents()   # what write_fp() does first
+            d = dump(self.iso)
             out = io.BytesIO()
             self.iso.write_fp(out)
             wr = True
             self.last = out.getvalue()
         except Exception:   # pylint: disable=broad-except
-            wr = False      # the checker reports the case
+            wr = False      # the library state is corrupt: the checker reports the case
             self.dead = True
         self.ops.append(op)
         self.obs.append((ok, wr, d))
@@ -499,7 +500,7 @@ def main():
     nops = sum(len(c['ops']) for c in cs)
     nacc = sum(1 for c in cs for o in c['obs'] if o[0])
     dead = sum(1 for c in cs if c['obs'] and not c['obs'][-1][1])
-    maxd = max(len(d[0]) for c in cs for o in c['obs'] for d in o[2])
+    maxd = max([len(d[0]) for c in cs for o in c['obs'] for d in o[2]] or [0])
     for k in range(0, len(cs), shard):
         write_shard(os.path.join(outdir, 'reloc_%d_%d.v' % (seed, k // shard)), cs[k:k + shard])
     print('%d histories, %d operations, %d accepted, %d histories end unwritable, deepest physical path %d'
